@@ -2,6 +2,8 @@ CONSTANT Dev = {}
 SPECIFICATION Spec
 INVARIANT YieldedInOrder
 INVARIANT MemberInStep
+INVARIANT SoloConcrete
+INVARIANT YieldRule
 INVARIANT Emit
 PROPERTY GroupValidityMonotone
 PROPERTY StopAllIsFinal
